@@ -16,6 +16,21 @@ TRUSTED = []
 ASSUMPTIONS = []
 NOT_COVERED = []
 
+WW = ["src/math/ww.c", "src/core/mem.c", "src/core/word.c", "src/core/u64.c", "src/core/u32.c", "src/core/u16.c"]
+WWFN_BASIC = ["wwCopy", "wwSwap", "wwEq", "wwEq_fast", "wwCmp", "wwCmp_fast", "wwCmp2", "wwCmp2_fast", "wwCmpW", "wwCmpW_fast",
+              "wwXor", "wwXor2", "wwSetZero", "wwSetW", "wwRepW", "wwIsZero", "wwIsZero_fast", "wwIsW", "wwIsW_fast",
+              "wwIsRepW", "wwIsRepW_fast", "wwWordSize", "wwOctetSize", "wwBitSize", "wwHiZeroBits", "wwLoZeroBits"]
+for n, m in ((0, 0), (1, 1), (2, 1), (1, 3), (3, 3), (4, 2)):
+    GROUPS.append(G("ww_basic.n%d.m%d" % (n, m), "harness/C05/ww.c", "h_ww_basic", WW, defs=["N=%d" % n, "M=%d" % m],
+                    level="B", bound="operand length <= 4 words", unwind=max(n, m) + 10, spec_unwind=66, search=20000, split=True, fn=WWFN_BASIC))
+for n in (1, 2, 3):
+    GROUPS.append(G("ww_bits.n%d" % n, "harness/C05/ww.c", "h_ww_bits", WW, defs=["N=%d" % n], level="B",
+                    bound="operand length <= 3 words, every bit position / width", unwind=n + 3, spec_unwind=64 * n + 2, search=20000, split=True,
+                    fn=["wwTestBit", "wwGetBits", "wwSetBit", "wwSetBits", "wwFlipBit"]))
+    GROUPS.append(G("ww_shift.n%d" % n, "harness/C05/ww.c", "h_ww_shift", WW, defs=["N=%d" % n], level="B",
+                    bound="operand length <= 3 words, every shift 0..(n+3)*B_PER_W", unwind=n + 3, spec_unwind=n + 4, search=20000, split=True,
+                    fn=["wwShLo", "wwShHi", "wwShLoCarry", "wwShHiCarry", "wwTrimLo", "wwTrimHi"]))
+
 # ---- unbounded contract groups (dfcc + loop contracts), symbolic n ---------------------
 def L(assigns, inv, dec="n - i"):
     return dict(assigns=assigns, inv=inv, dec=dec)
